@@ -848,6 +848,10 @@ func unop(instr *ssa.UnOp, x value) value {
 	case token.ARROW: // receive: handled in visitInstr
 		panic("unop ARROW")
 	case token.SUB:
+		if sv, ok := x.(symv); ok {
+			w, sg := intInfo(instr.X.Type())
+			return symv{'i', normInt("(bvneg "+sv.term+")", w, sg)}
+		}
 		switch x := x.(type) {
 		case int:
 			return -x
@@ -888,6 +892,10 @@ func unop(instr *ssa.UnOp, x value) value {
 		}
 		return !x.(bool)
 	case token.XOR:
+		if sv, ok := x.(symv); ok {
+			w, sg := intInfo(instr.X.Type())
+			return symv{'i', normInt("(bvnot "+sv.term+")", w, sg)}
+		}
 		switch x := x.(type) {
 		case int:
 			return ^x
